@@ -158,15 +158,14 @@ class WorldBuilder:
         rc, out, err = self.plain.run([], 'local __x = (%s\n); 0' % code)
         return rc == 0
 
-    def value_tables(self, sargs, expr, env):
+    def value_tables(self, sargs, expr, env, depths=(0, 1, 2)):
         """describe the deep-evaluated value of expr: returns (vid or None, shape table,
-        manifest table).  vids are allocated depth-first from 1."""
-        rc, out, err = self.plain.run(sargs, DEEP + 'local __v = (%s\n); __deep(__v)' % expr, env)
+        manifest table).  vids are allocated depth-first from 1.  Only nodes at the given
+        depths (0 = the value, 1 = its items / fields, 2 = theirs) are manifested — the ones
+        the case's output mode can ask for; the others are left out of the table."""
+        rc, out, err = self.plain.run(sargs, DEEP + DESC + 'local __v = (%s\n); if __deep(__v) then __d(__v, 2) else null' % expr, env)
         if rc != 0:
             return None, {}, {}
-        rc, out, err = self.plain.run(sargs, DESC + 'local __v = (%s\n); __d(__v, 2)' % expr, env)
-        if rc != 0:
-            raise RuntimeError('describe probe failed for %r: %s' % (expr, err[:300]))
         desc = json.loads(out.decode('utf-8'), strict=False)
         shapes, manifest = {}, {}
         counter = [0]
@@ -181,7 +180,8 @@ class WorldBuilder:
         def walk(d, access, depth):
             counter[0] += 1
             vid = counter[0]
-            manifest[vid] = man(access)
+            if depth in depths:
+                manifest[vid] = man(access)
             t = d['t']
             if t == 'string':
                 shapes[vid] = ('S', d['s'].encode('utf-8'))
@@ -199,6 +199,16 @@ class WorldBuilder:
         return root, shapes, manifest
 
 
+def manifest_depths(c):
+    """which nodes' JSON the output mode of the case can ask for"""
+    if c['S']:
+        return ()
+    d = 1 if c['y'] else 0
+    if c['m']:
+        d += 1
+    return (d,)
+
+
 # ---------------------------------------------------------------- cases
 
 EXT_KINDS = ['es', 'esf', 'ec', 'ecf']
@@ -209,7 +219,8 @@ FLAG = {'es': '--ext-str', 'esf': '--ext-str-file', 'ec': '--ext-code', 'ecf': '
 
 def default_case():
     return {'src': '1', 'func': None, 'in': 'e', 'S': False, 'y': False, 'ntn': False, 'm': None, 'o': None,
-            'so': 'pipe', 's': None, 't': None, 'vars': [], 'env': {}, 'files': {}, 'bad_argv': None}
+            'so': 'pipe', 's': None, 't': None, 'vars': [], 'env': {}, 'files': {}, 'bad_argv': None,
+            'expect_rc': None, 'expect_stdout': None}
 
 
 def mk(**kw):
@@ -463,7 +474,7 @@ class CaseRunner:
         # root load
         k = c['in']
         stdin = None
-        root_ok = self.wb.loads(src)
+        root_ok = k in ('stdin_closed', 'stdin_dir', 'missing', 'dirinput', 'none') or self.wb.loads(src)
         root = 1 if root_ok else None
         if k == 'e':
             tabs['load_virt'].append(('<cmdline>', src, root))
@@ -511,7 +522,7 @@ class CaseRunner:
         views['var_fail'] = var_fail
         if root is not None and not var_fail:
             # evaluation of the root thunk (deep), then the call when it is a function
-            vid, shapes, manifest = self.wb.value_tables(sargs, src, c['env'])
+            vid, shapes, manifest = self.wb.value_tables(sargs, src, c['env'], manifest_depths(c))
             tabs['eval'].append((('L', root), vid))
             if vid is not None:
                 final_expr = src
@@ -537,7 +548,7 @@ class CaseRunner:
                                 locs.append('%s = %s' % (pname, ex))
                         final_expr = ('local %s; ' % ', '.join(locs) if locs else '') + c['func']['body']
                         # the called body's value gets fresh ids above the function's
-                        v2, shapes2, manifest2 = self.wb.value_tables(sargs, final_expr, c['env'])
+                        v2, shapes2, manifest2 = self.wb.value_tables(sargs, final_expr, c['env'], manifest_depths(c))
                         off = 1000
                         if v2 is not None:
                             for kx, sh in shapes2.items():
@@ -659,6 +670,11 @@ def oracle(runner, c, obs, tabs, views, good):
         return out
     opath = runner.opath(c) if c['o'] else None
     lim = runner.limit(c)
+    # what the case was constructed to show (known independently of any run)
+    if c.get('expect_rc') is not None and rc != c['expect_rc']:
+        out.append(('expected-exit-%d' % c['expect_rc'], 'exit %d where the construction of the case requires %d' % (rc, c['expect_rc'])))
+    if c.get('expect_stdout') is not None and obs['stdout'] is not None and obs['stdout'] != c['expect_stdout'].encode('utf-8'):
+        out.append(('expected-stdout', 'stdout %r where the construction of the case requires %r' % (obs['stdout'][:80], c['expect_stdout'][:80])))
     if rc != 0:
         if not obs['stderr']:
             out.append(('failure-without-stderr', 'exit %d with empty stderr' % rc))
@@ -731,6 +747,8 @@ def oracle(runner, c, obs, tabs, views, good):
                     listing += p.encode('utf-8') + b'\n'
                 if text != listing:
                     out.append(('multi-listing', 'multi listing %r differs from the visible fields %r' % (text, listing)))
+                if c['m'].startswith('ok:full='):
+                    want_files.pop('mdir/' + c['m'][len('ok:full='):], None)     # a symbolic link to /dev/full, not in the snapshot
                 new = {p: v for p, v in obs['after'].items() if obs['before'].get(p) != v and p != opath}
                 if new != want_files:
                     out.append(('multi-files', 'multi files %r differ from the visible fields\' views %r' % (sorted(new), sorted(want_files))))
@@ -755,21 +773,21 @@ def gen_programs(rng, tier):
     """(tag, src, func) — values of each type the modes care about, plus failing ones"""
     js = json.dumps
     progs = []
-    for s in (STRINGS if tier == 'thorough' else rng.sample(STRINGS[:9], 4) + rng.sample(STRINGS[9:], 2)):
+    for s in (STRINGS if tier == 'thorough' else rng.sample(STRINGS[:9], 3) + rng.sample(STRINGS[9:], 2)):
         progs.append(('string', js(s), None))
     progs.append(('string-computed', '"a" + "b" + std.toString(1 + 2)', None))
     arrays = ['[]', '[1, "a\\nb", {b: [2, 3]}, null, true]', '["x", "y"]', '[[1, 2], [], [[3]]]',
               '[std.repeat("z", 600), std.repeat("w", 700)]', '[1, function(x) x]', '[1, error "boom", 3]']
-    for a in (arrays if tier == 'thorough' else arrays[:2] + rng.sample(arrays[2:], 3)):
+    for a in (arrays if tier == 'thorough' else arrays[:2] + rng.sample(arrays[2:], 2)):
         progs.append(('array', a, None))
     objects = ['{}', '{a: "x", b: "y\\n", "c d": "é"}', '{a: 1, b: [1, 2], c: {d: null}}', '{a: "s", b: 2}',
                '{a: [1], b: [], c: ["q"]}', '{a: 1, h:: 2, c: self.h}', '{b: 1, a: 2, "Z": 3, "é": 4}',
                '{a: 1, b: function(x) x}', '{a: 1, b: error "boom"}', '{assert false : "no", a: 1}',
                '{[k]: k + "!" for k in ["p", "q"]}', '{"sub/x": 1, a: 2}', '{"": 1}', '{a: "x"} + {a+: "y", b: "z"}']
-    for o in (objects if tier == 'thorough' else objects[:3] + rng.sample(objects[3:], 5)):
+    for o in (objects if tier == 'thorough' else objects[:3] + rng.sample(objects[3:], 3)):
         progs.append(('object', o, None))
     others = ['1', 'null', 'true', '1.5e300', 'error "top"', '1 +', '{a: 1', 'local x = y; 1', 'std.extVar("nope")', '"unterminated']
-    for o in (others if tier == 'thorough' else others[:1] + rng.sample(others[1:], 4)):
+    for o in (others if tier == 'thorough' else others[:1] + rng.sample(others[1:], 3)):
         progs.append(('other', o, None))
     return progs
 
@@ -839,18 +857,25 @@ def gen_cases(rng, tier):
         cases.append(mk(src='1', bad_argv=bad, o=rng.choice([None, 'exists'])))
     cases.append(mk(src='1', **{'in': 'none'}))
     # D. external variables
-    vals = VAR_VALUES if tier == 'thorough' else rng.sample(VAR_VALUES, 5)
+    vals = VAR_VALUES if tier == 'thorough' else rng.sample(VAR_VALUES, 3)
     for i, v in enumerate(vals):
-        cases.append(mk(src='std.extVar("v")', S=True, ntn=(i % 2 == 0), vars=[['es', 'v=' + v]]))
-        cases.append(mk(src='std.extVar("v")', S=True, vars=[['es', 'v']], env={'v': v}))
-        cases.append(mk(src='std.extVar("v")', S=True, vars=[['esf', 'v=f.txt']], files={'f.txt': v}))
-        cases.append(mk(src='std.extVar("k=1")', vars=[['es', 'k=1=' + v]]))
-        cases.append(mk(src='std.extVar("v")', vars=[['ec', 'v=' + json.dumps(v) + ' + "+"']]))
-        cases.append(mk(src='std.extVar("v")', vars=[['ecf', 'v=c.jsonnet']], files={'c.jsonnet': '[' + json.dumps(v) + ', 1]'}))
+        nl = '' if i % 2 == 0 else '\n'
+        cases.append(mk(src='std.extVar("v")', S=True, ntn=(i % 2 == 0), vars=[['es', 'v=' + v]], expect_rc=0, expect_stdout=v + nl))
+        cases.append(mk(src='std.extVar("v")', S=True, vars=[['es', 'v']], env={'v': v}, expect_rc=0, expect_stdout=v + '\n'))
+        cases.append(mk(src='std.extVar("v")', S=True, vars=[['esf', 'v=f.txt']], files={'f.txt': v}, expect_rc=0, expect_stdout=v + '\n'))
+        cases.append(mk(src='std.extVar("k")', S=True, vars=[['es', 'k=1=' + v]], expect_rc=0, expect_stdout='1=' + v + '\n'))
+        cases.append(mk(src='std.extVar("k=1")', vars=[['es', 'k=1=' + v]], expect_rc=1))
+        cases.append(mk(src='std.extVar("v")', S=True, vars=[['ec', 'v=' + json.dumps(v) + ' + "+"']], expect_rc=0, expect_stdout=v + '+\n'))
+        cases.append(mk(src='std.extVar("v")[0]', S=True, vars=[['ecf', 'v=c.jsonnet']], files={'c.jsonnet': '[' + json.dumps(v) + ', 1]'},
+                        expect_rc=0, expect_stdout=v + '\n'))
+        cases.append(mk(src='function(p) p', func={'params': [['p', None]], 'body': 'p'}, S=True, vars=[['ts', 'p=' + v]],
+                        expect_rc=0, expect_stdout=v + '\n'))
+        cases.append(mk(src='function(p) p', func={'params': [['p', None]], 'body': 'p'}, S=True, vars=[['tsf', 'p=a=b.txt']],
+                        files={'a=b.txt': v}, expect_rc=0, expect_stdout=v + '\n'))
     lazy = [
-        mk(src='1', vars=[['ec', 'unused=error "never"']]),
-        mk(src='std.extVar("u")', vars=[['ec', 'u=error "used"']]),
-        mk(src='1', vars=[['ec', 'bad=1 +']]),
+        mk(src='1', vars=[['ec', 'unused=error "never"']], expect_rc=0, expect_stdout='1\n'),
+        mk(src='std.extVar("u")', vars=[['ec', 'u=error "used"']], expect_rc=1),
+        mk(src='1', vars=[['ec', 'bad=1 +']], expect_rc=1),
         mk(src='1', vars=[['ec', 'bad=local q = zz; 1']]),
         mk(src='1', vars=[['ecf', 'bad=nofile.jsonnet']]),
         mk(src='1', vars=[['ecf', 'bad=broken.jsonnet']], files={'broken.jsonnet': '{a: '}),
@@ -865,8 +890,11 @@ def gen_cases(rng, tier):
         mk(src='std.extVar("a") + std.extVar("b")', S=True, vars=[['ec', 'b="B"'], ['es', 'a=A']]),
         mk(src='[std.extVar("a"), std.extVar("b")]', y=True, vars=[['ec', 'b=std.extVar("a") + 1'], ['ec', 'a=41']]),
         mk(src='std.extVar("a")', vars=[['ts', 'a=1']]),
-        mk(src='1', vars=[['ts', 'a=1']], o='exists'),
-        mk(src='1', vars=[['ts', 'a=1'], ['ts', 'a=2']]),
+        mk(src='1', vars=[['ts', 'a=1']], o='exists', expect_rc=1),
+        mk(src='1', vars=[['ts', 'a=1'], ['ts', 'a=2']], expect_rc=1),
+        mk(src='function(a) a', func={'params': [['a', None]], 'body': 'a'}, vars=[['ts', 'a=1'], ['tc', 'a=2']], expect_rc=1),
+        mk(src='function(a, b=2) [a, b]', func={'params': [['a', None], ['b', '2']], 'body': '[a, b]'}, y=True, ntn=True,
+           vars=[['tc', 'b=[]'], ['ts', 'a=x']], expect_rc=0, expect_stdout='---\n"x"\n---\n[ ]\n...'),
         mk(src='{a: 1}', vars=[['tc', 'a=1 +']], m='ok'),
         mk(src='{a: 1}', vars=[['tsf', 'a=nofile']]),
     ]
@@ -878,7 +906,7 @@ def gen_cases(rng, tier):
                 [[rng.choice(['ts', 'tc']), n] for n in names[1:]], [[rng.choice(['ts', 'tc']), n] for n in reversed(names)],
                 [['ts', 'zz']] + [['ts', n] for n in names], [['ts', n] for n in names + names[:1]]]
         if tier != 'thorough':
-            sets = sets[:2] + rng.sample(sets[2:], 3)
+            sets = sets[1:2] + rng.sample(sets[:1] + sets[2:], 2)
         for si, st in enumerate(sets):
             vs = []
             files = {}
